@@ -136,6 +136,10 @@ class FakePort:
         self.timeout = 1.0
         self.fail_next_close = False
 
+    @property
+    def is_open(self):                  # as on a pyserial Serial object
+        return not self.closed
+
     # -- choice helper ----------------------------------------------------------------
     def _choose(self, label, arity, kind, values=None):
         if self.chooser is None or arity <= 1:
